@@ -347,3 +347,12 @@ package coordinator
 // AddWriteSubscriber appends to subPoints without the lock: it is wired once while the server is assembled
 //@ func (*PointsWriter).AddWriteSubscriber
 //@   setup_only called once from cmd/influxd/run.NewServer while the server is assembled, before Open starts any goroutine
+
+// ---- C05: a source's shards are mapped to nodes once ----
+// The remote shard groups of a source are accumulated with append: building them a second time for the same
+// (database, retention policy) would make every remote shard of that source be read twice. The mapping of a
+// source may therefore only be (re)built while it has no remote groups yet.
+//@ func (*ClusterShardMapper).mapShards
+//@   props C05
+//@   nosafety
+//@   call ShardGroupsByTimeRange#1 requires source_not_mapped_yet: !has(a.RemoteShardMapping, source)
